@@ -8,6 +8,7 @@ import I18n.Lemmas.HdrExempt
 import I18n.Props.C20
 import I18n.Lemmas.HdrClean
 import I18n.Lemmas.HdrNames
+import I18n.Lemmas.HdrScan
 /-
 # C15 — header diagnostics match the documented conditions
 
@@ -157,6 +158,39 @@ theorem content_type_form (db : UDB) (ct : Str) :
 
 /-- **conflict_marker_spec** -/
 theorem conflict_marker_spec (l : Str) : isConflictMarker l = true ↔ ConflictMarker l := isConflictMarker_iff l
+
+/-- **unusual_characters_spec**: the characters reported by `unusual-character-in-header-entry` are exactly the unusual ones of
+    the text (`Unusual`: C0 except TAB/LF/ESC, DEL, C1, U+FEFF, U+FFFD–U+FFFF, ESC not followed by `[`, `¿` directly after a word
+    character), each once, in code-point order -/
+theorem unusual_characters_spec (db : UDB) (text : Str) :
+    (∀ c, c ∈ sortedChars (unusualChars db text) ↔ Unusual db text c) ∧
+    (sortedChars (unusualChars db text)).Pairwise (fun a b => a.toNat < b.toNat) :=
+  ⟨fun c => by rw [mem_sortedChars]; exact mem_unusualAux db none text c, sortedChars_sorted _⟩
+
+/-- **comment_search_spec**: a comment line is boilerplate iff at some position (with the character before it) one of the
+    patterns matches; the patterns themselves: `\b<literal>\b` (`wordLit_iff`), `\bCopyright \S+ YEAR\b` -/
+theorem comment_search_spec (db : UDB) (tmpl : Bool) (line : Str) :
+    commentLineHit db tmpl line = true ↔ ∃ pre rest, line = pre ++ rest ∧ commentHit db tmpl pre.getLast? rest = true := by
+  unfold commentLineHit
+  rw [anyPos_iff]
+  constructor
+  · rintro ⟨pre, rest, e, h⟩
+    refine ⟨pre, rest, e, ?_⟩
+    unfold lastOr at h; cases hp : pre.getLast? <;> rw [hp] at h <;> exact h
+  · rintro ⟨pre, rest, e, h⟩
+    refine ⟨pre, rest, e, ?_⟩
+    unfold lastOr; cases hp : pre.getLast? <;> rw [hp] at h <;> exact h
+
+theorem comment_word_pattern (db : UDB) (l : Str) (prev : Option Char) (rest : Str) :
+    wordLit db l prev rest = true ↔
+      ∃ after, rest = l ++ after ∧ boundary db prev l.head? = true ∧ boundary db l.getLast? after.head? = true :=
+  wordLit_iff db l prev rest
+
+theorem comment_copyright_pattern (db : UDB) (prev : Option Char) (rest : Str) :
+    copyrightYear db prev rest = true ↔
+      ∃ run after, rest = "Copyright ".toList ++ run ++ " YEAR".toList ++ after ∧ run ≠ [] ∧ (∀ c ∈ run, db.isSpace c = false) ∧
+        boundary db prev (some 'C') = true ∧ boundary db (some 'R') after.head? = true :=
+  copyrightYear_iff db prev rest
 
 /-! ## pins: what the hand-written scanners and the rule set assume of the source, regenerated on every run -/
 
